@@ -35,6 +35,9 @@ from typing import Any, Dict, Iterator, List
 VERIF = os.path.dirname(os.path.dirname(os.path.abspath(__file__)))
 KNOWN_FILE = os.path.join(VERIF, "known_findings.json")
 MAX_CONFIRM = int(os.environ.get("VERIF_MAX_CONFIRM", "6"))
+CHUNK_TIMEOUT = int(os.environ.get("VERIF_CHUNK_TIMEOUT", "240"))
+MAX_DEAD_WORLDS = int(os.environ.get("VERIF_MAX_DEAD_WORLDS", "24"))
+SKIPPED_AFTER_DEATHS = [0]
 
 
 def repo_path() -> str:
@@ -184,8 +187,22 @@ def _isolate(modname: str, worlds_list: List[Any], absorb) -> None:
         finally:
             os.unlink(path)
 
+    bad = [0]
+
+    def guarded(w):
+        # once many worlds have killed or hung their process the point is made: the rest is skipped (reported as a cap)
+        if bad[0] >= MAX_DEAD_WORLDS:
+            return w, None
+        w2, r = one(w)
+        if any(sg.startswith("crash/worker-process-") for sg, _ in r.get("viol", [])):
+            bad[0] += 1
+        return w2, r
+
     with ThreadPoolExecutor(max_workers=os.cpu_count() or 4) as tp:
-        for w, r in tp.map(one, worlds_list):
+        for w, r in tp.map(guarded, worlds_list):
+            if r is None:
+                SKIPPED_AFTER_DEATHS[0] += 1
+                continue
             out = dict(n=1, nontrivial=1 if r.get("nontrivial") else 0, outcomes=set(), execs=int(r.get("execs", 1)),
                        xtrans=int(r.get("extra_transitions", 0)), xstates=int(r.get("extra_states", 0)),
                        viols=[(sg, w, dt) for sg, dt in r.get("viol", [])])
@@ -256,6 +273,7 @@ def run(modname: str, tier: str, seed: int, workers: int) -> int:
         with ProcessPoolExecutor(max_workers=workers, mp_context=ctx, initializer=_worker_init,
                                  initargs=(modname,)) as ex:
             pending: Dict[Any, List[Any]] = {}
+            stalled = 0
             while True:
                 while not exhausted and not broken and len(pending) < workers * 3:
                     try:
@@ -269,7 +287,20 @@ def run(modname: str, tier: str, seed: int, workers: int) -> int:
                     pending[ex.submit(_work, c)] = c
                 if not pending:
                     break
-                done, _ = wait(list(pending), return_when=FIRST_COMPLETED)
+                done, _ = wait(list(pending), return_when=FIRST_COMPLETED, timeout=30)
+                if not done:
+                    stalled += 30
+                    if stalled >= CHUNK_TIMEOUT:
+                        # no chunk finished for a long time: some execution hangs. Kill the workers; the worlds in flight
+                        # are then re-run one per process (with a per-world timeout) like after a worker death.
+                        for proc in list(getattr(ex, "_processes", {}).values()):
+                            try:
+                                proc.kill()
+                            except Exception:
+                                pass
+                        stalled = 0
+                    continue
+                stalled = 0
                 for f in done:
                     c = pending.pop(f)
                     try:
@@ -290,6 +321,10 @@ def run(modname: str, tier: str, seed: int, workers: int) -> int:
             exhausted = False if not _is_exhausted(chunk_iter) else True
             _isolate(modname, redo, absorb)
             redo = []
+            if SKIPPED_AFTER_DEATHS[0] or pool_breaks >= 3:
+                # worker processes keep dying: the violation is established, the rest of the space is not explored
+                stats.setdefault("caps", []).append(f"exploration stopped after {pool_breaks} worker-pool failures")
+                exhausted = True
             if pool_breaks > 20:
                 print(f"HARNESS-ERROR property={pid} worker pool broke {pool_breaks} times")
                 return 2
@@ -361,6 +396,8 @@ def run(modname: str, tier: str, seed: int, workers: int) -> int:
     elif agg["nontrivial"] < 2:
         vacuous = f"only {agg['nontrivial']} non-trivial worlds"
     caps = list(bounds.get("caps") or stats.get("caps") or [])
+    if SKIPPED_AFTER_DEATHS[0]:
+        caps.append(f"{SKIPPED_AFTER_DEATHS[0]} worlds were skipped after {MAX_DEAD_WORLDS} worlds had killed or hung their process")
     if agg.get("caps_hit"):
         caps.append(f"the per-world cap on single-tie-group deviation plans was reached on {agg['caps_hit']} worlds; on those the stable "
                     f"order, the all-reversed order and the first plans up to the cap were explored")
